@@ -154,6 +154,12 @@ def alphabets(ctx, rng):
     return [('lower', LOWER), ('upper', UPPER), ('ab', 'ab'), ('qwertyuiop', 'qwertyuiop'), ('AbCdEfG', 'AbCdEfG'), ('random', rnd)]
 
 
+# raw `chars` arguments as a caller may pass them: repeated letters and the same letter in both cases, so that the
+# order of the preprocessing in rectangular()/add_layers() (case folding, then uniqstring) matters
+RAW_ALPHAS = [('dups', 'hello'), ('mixed-case', 'aAbBcCdD'), ('ascii_letters', string.ascii_letters),
+              ('mixed-case+dups', 'AbaBBa'), ('lower+ATM', LOWER + 'ATM')]
+
+
 def good_chars(chars, spaces):
     """hypothesis of the theorems about an alphabet"""
     return (len(set(chars)) == len(chars) and all(c != ' ' and not c.isdigit() for c in chars)
@@ -546,7 +552,9 @@ def facet_geometries(ctx, R, res, rng, alphas):
     mg = R.m.mulgrid
     # add_layers: layer counts across 99, the 2- and 3-letter capacities and the surface-name collision indices
     for conv in range(4):
-        for label, chars in alphas + [('dups', 'hello'), ('lower+dups', LOWER + 'tam')]:
+        for label, chars in alphas + RAW_ALPHAS + [('lower+dups', LOWER + 'tam')]:
+            if ctx.quick and label in ('ascii_letters', 'lower+ATM') and conv in (0, 1):
+                continue                                    # 52-letter alphabets: 3-letter capacity is far above 20000
             for spaces in (True, False):
                 if not good_chars(R.m.uniqstring(chars), spaces):
                     continue
@@ -578,32 +586,58 @@ def facet_geometries(ctx, R, res, rng, alphas):
         B.flush(ctx)
 
     # rectangular
+    def effective(chars, case_):
+        eff = chars if case_ is None else (chars.lower() if case_ == 'l' else chars.upper())
+        return R.m.uniqstring(eff)
     cases = []
     for conv in range(4):
         for atmos in range(3):
-            for label, chars in alphas + [('dups', 'hello')]:
+            for label, chars in alphas + RAW_ALPHAS:
                 for spaces in (True, False):
                     for case_ in (None, 'l', 'u'):
-                        eff = chars if case_ is None else (chars.lower() if case_ == 'l' else chars.upper())
-                        eff = R.m.uniqstring(eff)
+                        eff = effective(chars, case_)
                         if not good_chars(eff, spaces):
                             continue
-                        cases.append((conv, atmos, label, chars, spaces, case_, len(eff)))
+                        cases.append((conv, atmos, label, chars, spaces, case_, len(eff), False))
     rng.shuffle(cases)
-    # every (convention, atmosphere type) pair is kept; the rest is sampled
-    keep, seen = [], set()
+    # always run (small grids): every raw alphabet x case in {None,'l','u'} x spaces x convention, both justifications,
+    # atmosphere type rotating; then every (convention, atmosphere type, spaces) triple; the rest is sampled
+    keep = []
+    k = 0
+    for label, chars in RAW_ALPHAS:
+        for case_ in (None, 'l', 'u'):
+            for spaces in (True, False):
+                eff = effective(chars, case_)
+                if not good_chars(eff, spaces):
+                    continue
+                for conv in range(4):
+                    keep.append((conv, k % 3, label, chars, spaces, case_, len(eff), True))
+                    k += 1
+    res.count('rectangular:raw-alphabet-configurations', len(keep))
+    seen = set()
+    nsample = len(keep) + ctx.n(60, 600)
     for c in cases:
-        if (c[0], c[1], c[4]) not in seen or len(keep) < ctx.n(60, 600):
+        if (c[0], c[1], c[4]) not in seen or len(keep) < nsample:
             seen.add((c[0], c[1], c[4]))
             keep.append(c)
     budget = ctx.n(600000, 12000000)      # total number of block names generated by the real code in this facet
-    for conv, atmos, label, chars, spaces, case_, n in keep:
-        left = rng.random() < 0.4
+    for idx, (conv, atmos, label, chars, spaces, case_, n, small) in enumerate(keep):
+        left = (idx % 2 == 1) if small else rng.random() < 0.4
         L = R.g(conv).layername_length
         lcap = 99 if conv == 0 else (sum(n ** k for k in range(1, L + 1)) if spaces else n ** L - 1)
-        for nx, ny in rect_sizes(conv, n, spaces, rng, ctx.quick):
+        if small:
+            sizes = [(3, 2), (rng.randint(1, 9), rng.randint(1, 9))]
+            ccap = (sum(n ** k for k in range(1, 4)) if spaces else n ** 3 - 1) if conv in (0, 3) else (99 if conv == 1 else 999)
+            if ccap <= 400:                       # small alphabets: also at / above the node capacity
+                sizes += [(ccap // 2 - 1, 1), (ccap // 2, 1)]
+            sizes = [(a, c) for a, c in sizes if a >= 1]
+        else:
+            sizes = rect_sizes(conv, n, spaces, rng, ctx.quick)
+        for nx, ny in sizes:
             nz = rng.choice([1, 2, 3, 46, 47, 99, 100, 120, lcap - 1, lcap, lcap + 1, rng.randint(1, 120)])
             nz = max(1, min(nz, 120))
+            if small:
+                nz = min(nz, rng.choice([3, 10, 47]))
             if nx * ny * nz > budget // 8:
                 nz = max(1, (budget // 8) // (nx * ny))
             if nx * ny * nz > budget:
@@ -614,6 +648,10 @@ def facet_geometries(ctx, R, res, rng, alphas):
                     # all columns of a rectangular grid have 4 nodes, so the DMPlex order coincides with layer/column order (what the model computes)
                     'block_order': rng.choice([None, None, 'layer_column', 'dmplex'])}
             res.count('rectangular:block_order=%s' % case['block_order'])
+            res.count('rectangular:case=%s' % case_)
+            res.count('rectangular:chars=%s' % label)
+            res.count('rectangular:justify=%s' % ('l' if left else 'r'))
+            res.count('rectangular:convention=%d,atmos_type=%d' % (conv, atmos))
             r, viol, g = run_rect(R, case)
             res.violations += viol
             full = nx * ny * nz <= 60000
@@ -681,8 +719,18 @@ def run_rect(R, case):
             viol.append(dict(key='rectangular-registry', what='%s: by-name dictionaries lost entries (%d/%d nodes, %d/%d columns, %d/%d layers, %d/%d blocks)'
                              % (what, g.num_nodes, len(nodes), g.num_columns, len(cols), g.num_layers, len(lays), len(g.block_name_index), len(blocks)), case=case))
         # the column and layer parts of every block name give back the column and layer it was built from
+        # (positional walk: only meaningful when the counts are right — a wrong count is already reported above)
         k = natm
         ok = True
+        counts_ok = len(cols) == nx * ny and len(lays) == nz + 1 and len(blocks) == natm + nx * ny * nz
+        if not counts_ok:
+            colset, layset = set(cols) | {getattr(g, 'atmosphere_column_name', None)}, set(lays)
+            for blk in blocks:
+                if g.column_name(blk) not in colset or g.layer_name(blk) not in layset:
+                    viol.append(dict(key='block-name-not-invertible', what='%s: block %r has parts %r / %r which are not a column / layer of the geometry'
+                                     % (what, blk, g.column_name(blk), g.layer_name(blk)), case=case))
+                    break
+            return r, viol, g
         if case['atmos_type'] == 0 and (g.layer_name(blocks[0]) != lays[0] or g.column_name(blocks[0]) != g.atmosphere_column_name):
             ok = False; bad = (blocks[0], lays[0], g.atmosphere_column_name)
         if case['atmos_type'] == 1:
